@@ -7,6 +7,7 @@ import Pff.Model.Layout
 import Pff.Model.GF
 import Pff.Model.Facade
 import Pff.Model.Merge
+import Pff.Model.DupDb
 import Pff.Model.Rfigc
 import Pff.Model.Ecc
 import Pff.Model.Entry
@@ -324,6 +325,27 @@ def handle (toks : List String) : String :=
       let rows := (r.files.zip r.used).map (fun fu =>
         s!"{strHex ("/".intercalate fu.1.1)}:{toHex fu.1.2}:{showNums fu.2.2}")
       s!"{r.exit} {" ".intercalate rows}"
+    | _, _ => "bad-op"
+  | "dupd" :: bs :: rest =>
+    -- rest = DB (pathhex:md5:sha1 …) ; HT (contenthex:md5:sha1 …) ; replica ; replica ; …
+    match bs.toNat?, splitAll ";" rest with
+    | some bs, db :: ht :: reps =>
+      let dbp : Option (List (String × Nat × Nat)) := db.mapM (fun t => match t.splitOn ":" with
+        | [p, a, b] => do some ((← hexToString p), (← a.toNat?), (← b.toNat?))
+        | _ => none)
+      match dbp, parseHT ht, reps.mapM parseReplica with
+      | some dbp, some ht, some reps =>
+        let Hf : List Nat → Nat × Nat := fun c => match ht.find? (fun e => e.1 == c) with | some e => e.2 | none => (0, 0)
+        let groups := Pff.Merge.align (Pff.Merge.remaining (reps.map Pff.Merge.walk) + 1) (reps.map Pff.Merge.walk)
+        let rows := groups.map (fun pg =>
+          let path := "/".intercalate pg.1
+          let recorded := (dbp.find? (fun e => e.1 == path)).map (·.2)
+          let r := Pff.DupDb.processGroupDb bs Hf recorded pg.2
+          let mk := match r.mark with | .ok => "OK" | .ko => "KO" | .unknown => "-"
+          (s!"{strHex path}:{toHex r.out}:{showNums (pg.2.map (·.1))}:{mk}:{r.errcode}", r.errcode))
+        let exit := if rows.any (fun x => x.2 ≠ 0) then 1 else 0
+        s!"{exit} {" ".intercalate (rows.map (·.1))}"
+      | _, _, _ => "bad-op"
     | _, _ => "bad-op"
   | "walk" :: rest =>
     match parseReplica rest with
